@@ -296,6 +296,72 @@ def chunk_p_vc():
                            "mode 'constant' with lengths given (reflect / replicate and omitted lengths: bounded driver); values are moved, not computed"])
 
 
+def prove_prefix_compaction(I, rec1, rec2, sm, N, T, F, LIN, lin_step, MASK, sk0, sk1, prove):
+    """masked_select through an ARBITRARY mask MASK(n, t) (independent of the last coordinate) scattered into the prefix windows
+    [0, cnt(n, T)), where cnt(n, t) = the partial sums `sm` of the code's own count of the mask: emits the obligations (the code's masks
+    are these; count range and growth, coefficients, frames, sequences - each an induction) and registers the instances for the
+    postcondition at sk0 = (n0, t0, f0, q0). Returns cnt."""
+    N0, T0, F0, Q0 = sk0
+    N1, T1, F1 = sk1
+    a_, b_, c_ = z3.Ints("a_q b_q c_q")
+    PS = sm["S"]
+    I.ex.oblige("compaction.count_runs_over_the_frames", z3.And(sm["T"] == T, rec1["dims"][0] == N, rec1["dims"][1] == T, rec1["dims"][2] == F))
+    I.ex.oblige("compaction.counted_value_is_the_mask", z3.Implies(z3.And(0 <= N1, N1 < N, 0 <= T1, T1 < T), sm["val"]([N1], T1) == z3.If(MASK(N1, T1), 1, 0)))
+    cv = lambda n, t: z3.Implies(z3.And(0 <= n, n < N, 0 <= t, t < T), sm["val"]([n], t) == z3.If(MASK(n, t), 1, 0))
+    I.ex.assume(z3.ForAll([a_, b_], cv(a_, b_)))
+    for y in (sm["base"](N1), sm["step"](N1, T1), cv(N1, T1), sm["base"](N0), cv(N0, T0), sm["step"](N0, T0)):
+        I.ex.instance(y)
+    # 0 <= cnt(n, t) <= t
+    rng = lambda n, t: z3.Implies(z3.And(0 <= n, n < N, 0 <= t, t <= T), z3.And(0 <= PS(n, t), PS(n, t) <= t))
+    I.ex.oblige("count.range.base", rng(N1, z3.IntVal(0)))
+    I.ex.oblige("count.range.step", z3.Implies(z3.And(0 <= T1, T1 < T, rng(N1, T1)), rng(N1, T1 + 1)))
+    I.ex.assume(z3.ForAll([a_, b_], rng(a_, b_)))
+    # cnt(n0, t) > cnt(n0, t0) for t > t0 when frame t0 is selected
+    later = lambda t: z3.Implies(z3.And(0 <= N0, N0 < N, 0 <= T0, T0 < t, t <= T, MASK(N0, T0)), PS(N0, t) >= PS(N0, T0) + 1)
+    I.ex.instance(sm["step"](N0, T1))
+    I.ex.instance(cv(N0, T1))
+    I.ex.oblige("count.grows_after_a_selected_frame.base", later(T0 + 1))
+    I.ex.oblige("count.grows_after_a_selected_frame.step", z3.Implies(z3.And(T0 < T1, T1 < T, later(T1)), later(T1 + 1)))
+    I.ex.assume(z3.ForAll([b_], later(b_)))
+    for y in (later(T), rng(N0, T0), rng(N0, T), rng(N1, T), rng(N1, T1)):
+        I.ex.instance(y)
+    # source: arbitrary mask - coefficients, then frames against the partial sums
+    mm = lambda n, t, f: z3.Implies(z3.And(0 <= n, n < N, 0 <= t, t < T, 0 <= f, f < F), rec1["mask"]([n, t, f]) == MASK(n, t))
+    I.ex.oblige("compaction.source.mask_is_the_given_mask", mm(N1, T1, F1))
+    I.ex.assume(z3.ForAll([a_, b_, c_], mm(a_, b_, c_)))
+    cf, ctt = rec1["CNT"][2], rec1["CNT"][1]
+    lem = lambda n, t, f: z3.Implies(z3.And(0 <= n, n < N, 0 <= t, t < T, 0 <= f, f <= F), cf(n, t, f) == z3.If(MASK(n, t), f, 0))
+    for y in (rec1["base"](2, [N1, T1]), rec1["step"](2, [N1, T1], F1), mm(N1, T1, F1)):
+        I.ex.instance(y)
+    I.ex.oblige("compaction.source.coefficients.base", lem(N1, T1, z3.IntVal(0)))
+    I.ex.oblige("compaction.source.coefficients.step", z3.Implies(z3.And(0 <= F1, F1 < F, lem(N1, T1, F1)), lem(N1, T1, F1 + 1)))
+    I.ex.assume(z3.ForAll([a_, b_, c_], lem(a_, b_, c_)))
+    cl1 = lambda n, t: z3.Implies(z3.And(0 <= n, n < N, 0 <= t, t <= T), ctt(n, t) == LIN(PS(n, t)))
+    for y in (rec1["base"](1, [N1]), rec1["step"](1, [N1], T1), lem(N1, T1, F), lin_step(PS(N1, T1))):
+        I.ex.instance(y)
+    I.ex.oblige("compaction.source.frames.base", cl1(N1, z3.IntVal(0)))
+    I.ex.oblige("compaction.source.frames.step", z3.Implies(z3.And(0 <= T1, T1 < T, cl1(N1, T1)), cl1(N1, T1 + 1)))
+    I.ex.assume(z3.ForAll([a_, b_], cl1(a_, b_)))
+    rec1.update(lem_f=lem, lem_t=cl1, mm=mm)
+    # destination: the window [0, lens); sequences; then the instances for the postcondition at (n0, q0 = cnt(n0, t0), f0)
+    lens_ = lambda n: PS(n, T)
+    cl2 = prove.window_lemmas("destination", rec2, (lambda n: z3.IntVal(0)), lens_)
+    c1, c2 = rec1["CNT"], rec2["CNT"]
+    same = lambda n: z3.Implies(z3.And(0 <= n, n <= N), c1[0](n) == c2[0](n))
+    for y in (rec1["base"](0, []), rec2["base"](0, []), rec1["step"](0, [], N1), rec2["step"](0, [], N1), cl1(N1, T), cl2(N1, rec2["dims"][1])):
+        I.ex.instance(y)
+    I.ex.oblige("compaction.destination.extent", rec2["dims"][1] == T)
+    I.ex.oblige("compaction.sequences.base", same(z3.IntVal(0)))
+    I.ex.oblige("compaction.sequences.step", z3.Implies(z3.And(0 <= N1, N1 < N, same(N1)), same(N1 + 1)))
+    I.ex.assume(z3.ForAll([a_], same(a_)))
+    q = PS(N0, T0)
+    for y in (same(N), same(N0), cl1(N0, T0), cl2(N0, q), cl2(N0, Q0), lem(N0, T0, F0), rec2["lem_f"](N0, q, F0), rec2["lem_f"](N0, Q0, F0), rec1["inj"]([N0, T0, F0]), mm(N0, T0, F0),
+              rec2["mm"](N0, q, F0), rec2["mm"](N0, Q0, F0)):
+        I.ex.instance(y)
+
+    return PS
+
+
 def masked_p_vc(batch_first):
     """P rung: pad_masked_sequence for SYMBOLIC batch size, extent, feature size and ANY mask. With cnt(n, t) = number of selected
     frames of sequence n before t (the partial sums of the code's own `mask.sum(1)`, assumed partial-sum contract):
@@ -331,62 +397,7 @@ def masked_p_vc(batch_first):
             sums = [s_ for s_ in I.ex.ghost.get("sums", []) if s_.get("kind") == "sum"]
             if rec1 is None or rec1["rank_"] != 3 or rec2["rank_"] != 3 or len(sums) != 1 or "cnt" in I.ex.ghost:
                 raise ip.Unsupported("pad_masked_sequence: one mask.sum and one scatter of a masked_select of a rank-3 tensor expected")
-            sm = sums[0]
-            PS = sm["S"]
-            I.ex.ghost["cnt"] = PS
-            I.ex.oblige("compaction.count_runs_over_the_frames", z3.And(sm["T"] == T, rec1["dims"][0] == N, rec1["dims"][1] == T, rec1["dims"][2] == F))
-            I.ex.oblige("compaction.counted_value_is_the_mask", z3.Implies(z3.And(0 <= N1, N1 < N, 0 <= T1, T1 < T), sm["val"]([N1], T1) == z3.If(MASK(N1, T1), 1, 0)))
-            cv = lambda n, t: z3.Implies(z3.And(0 <= n, n < N, 0 <= t, t < T), sm["val"]([n], t) == z3.If(MASK(n, t), 1, 0))
-            I.ex.assume(z3.ForAll([a_, b_], cv(a_, b_)))
-            for y in (sm["base"](N1), sm["step"](N1, T1), cv(N1, T1), sm["base"](N0), cv(N0, T0), sm["step"](N0, T0)):
-                I.ex.instance(y)
-            # 0 <= cnt(n, t) <= t
-            rng = lambda n, t: z3.Implies(z3.And(0 <= n, n < N, 0 <= t, t <= T), z3.And(0 <= PS(n, t), PS(n, t) <= t))
-            I.ex.oblige("count.range.base", rng(N1, z3.IntVal(0)))
-            I.ex.oblige("count.range.step", z3.Implies(z3.And(0 <= T1, T1 < T, rng(N1, T1)), rng(N1, T1 + 1)))
-            I.ex.assume(z3.ForAll([a_, b_], rng(a_, b_)))
-            # cnt(n0, t) > cnt(n0, t0) for t > t0 when frame t0 is selected
-            later = lambda t: z3.Implies(z3.And(0 <= N0, N0 < N, 0 <= T0, T0 < t, t <= T, MASK(N0, T0)), PS(N0, t) >= PS(N0, T0) + 1)
-            I.ex.instance(sm["step"](N0, T1))
-            I.ex.instance(cv(N0, T1))
-            I.ex.oblige("count.grows_after_a_selected_frame.base", later(T0 + 1))
-            I.ex.oblige("count.grows_after_a_selected_frame.step", z3.Implies(z3.And(T0 < T1, T1 < T, later(T1)), later(T1 + 1)))
-            I.ex.assume(z3.ForAll([b_], later(b_)))
-            for y in (later(T), rng(N0, T0), rng(N0, T), rng(N1, T), rng(N1, T1)):
-                I.ex.instance(y)
-            # source: arbitrary mask - coefficients, then frames against the partial sums
-            mm = lambda n, t, f: z3.Implies(z3.And(0 <= n, n < N, 0 <= t, t < T, 0 <= f, f < F), rec1["mask"]([n, t, f]) == MASK(n, t))
-            I.ex.oblige("compaction.source.mask_is_the_given_mask", mm(N1, T1, F1))
-            I.ex.assume(z3.ForAll([a_, b_, c_], mm(a_, b_, c_)))
-            cf, ctt = rec1["CNT"][2], rec1["CNT"][1]
-            lem = lambda n, t, f: z3.Implies(z3.And(0 <= n, n < N, 0 <= t, t < T, 0 <= f, f <= F), cf(n, t, f) == z3.If(MASK(n, t), f, 0))
-            for y in (rec1["base"](2, [N1, T1]), rec1["step"](2, [N1, T1], F1), mm(N1, T1, F1)):
-                I.ex.instance(y)
-            I.ex.oblige("compaction.source.coefficients.base", lem(N1, T1, z3.IntVal(0)))
-            I.ex.oblige("compaction.source.coefficients.step", z3.Implies(z3.And(0 <= F1, F1 < F, lem(N1, T1, F1)), lem(N1, T1, F1 + 1)))
-            I.ex.assume(z3.ForAll([a_, b_, c_], lem(a_, b_, c_)))
-            cl1 = lambda n, t: z3.Implies(z3.And(0 <= n, n < N, 0 <= t, t <= T), ctt(n, t) == LIN(PS(n, t)))
-            for y in (rec1["base"](1, [N1]), rec1["step"](1, [N1], T1), lem(N1, T1, F), lin_step(PS(N1, T1))):
-                I.ex.instance(y)
-            I.ex.oblige("compaction.source.frames.base", cl1(N1, z3.IntVal(0)))
-            I.ex.oblige("compaction.source.frames.step", z3.Implies(z3.And(0 <= T1, T1 < T, cl1(N1, T1)), cl1(N1, T1 + 1)))
-            I.ex.assume(z3.ForAll([a_, b_], cl1(a_, b_)))
-            rec1.update(lem_f=lem, lem_t=cl1, mm=mm)
-            # destination: the window [0, lens); sequences; then the instances for the postcondition at (n0, q0 = cnt(n0, t0), f0)
-            lens_ = lambda n: PS(n, T)
-            cl2 = prove.window_lemmas("destination", rec2, (lambda n: z3.IntVal(0)), lens_)
-            c1, c2 = rec1["CNT"], rec2["CNT"]
-            same = lambda n: z3.Implies(z3.And(0 <= n, n <= N), c1[0](n) == c2[0](n))
-            for y in (rec1["base"](0, []), rec2["base"](0, []), rec1["step"](0, [], N1), rec2["step"](0, [], N1), cl1(N1, T), cl2(N1, rec2["dims"][1])):
-                I.ex.instance(y)
-            I.ex.oblige("compaction.destination.extent", rec2["dims"][1] == T)
-            I.ex.oblige("compaction.sequences.base", same(z3.IntVal(0)))
-            I.ex.oblige("compaction.sequences.step", z3.Implies(z3.And(0 <= N1, N1 < N, same(N1)), same(N1 + 1)))
-            I.ex.assume(z3.ForAll([a_], same(a_)))
-            q = PS(N0, T0)
-            for y in (same(N), same(N0), cl1(N0, T0), cl2(N0, q), cl2(N0, Q0), lem(N0, T0, F0), rec2["lem_f"](N0, q, F0), rec2["lem_f"](N0, Q0, F0), rec1["inj"]([N0, T0, F0]), mm(N0, T0, F0),
-                      rec2["mm"](N0, q, F0), rec2["mm"](N0, Q0, F0)):
-                I.ex.instance(y)
+            I.ex.ghost["cnt"] = prove_prefix_compaction(I, rec1, rec2, sums[0], N, T, F, LIN, lin_step, MASK, (N0, T0, F0, Q0), (N1, T1, F1), prove)
 
         I.ex.ghost["scatter_hooks"] = [hook]
         return I.call(P.pad_masked_sequence, [x, m, batch_first, PADV], {})
